@@ -26,8 +26,9 @@ func init() {
 			"expected delta of a recorded channel message = round(difference of the arrival time stamps of consecutive recorded messages x resolution x bpm / 60000), tolerance one tick",
 			"the first delta is checked against the virtual-clock advance before the first message minus the testdrv session offset (at most 60 s)",
 			"arrival time stamp of a message = accumulated Driver.Sleep time of the Send call that carried its last byte (C04)",
+			"inter-arrival gaps are kept below 0x07FFFFFF ticks at the recording tempo and resolution (a delta must be representable in the file)",
 		},
-		Require: []string{"recordings", "channel_messages_recorded", "non_channel_messages_sent", "realtime_sent", "syscommon_sent", "strict_validated", "read_back", "delta_checks", "file_level_recordings"},
+		Require: []string{"recordings", "channel_messages_recorded", "non_channel_messages_sent", "realtime_sent", "syscommon_sent", "strict_validated", "read_back", "delta_checks", "file_level_recordings", "recordings_with_long_pause"},
 		Run:     runC13,
 	})
 }
@@ -61,6 +62,7 @@ func runC13(c *mon.Ctx) {
 		chunks := make([][]byte, len(parts))
 		deltas := make([]int32, len(parts))
 		acc := make([]int64, len(parts))
+		longPause := false
 		off := 0
 		var t int64
 		for j, p := range parts {
@@ -69,6 +71,15 @@ func runC13(c *mon.Ctx) {
 			deltas[j] = int32(r.Intn(400))
 			if r.P(1, 4) {
 				deltas[j] = 0
+			}
+			if !longPause && r.P(1, 25) { // one long pause: minutes to hours on the virtual clock
+				ms := float64(r.Pick(60_000, 300_000, 600_000, 3_600_000, 7_200_000))
+				// the gap must stay representable: below the SMF maximum of 0x0FFFFFFF ticks (with headroom)
+				if lim := float64(0x07FFFFFF) * 60000 / (float64(res) * bpm); ms > lim {
+					ms = math.Floor(lim)
+				}
+				deltas[j] = int32(ms)
+				longPause = true
 			}
 			t += int64(deltas[j])
 			acc[j] = t
@@ -163,6 +174,9 @@ func runC13(c *mon.Ctx) {
 			return
 		}
 		c.Count("recordings", 1)
+		if longPause {
+			c.Count("recordings_with_long_pause", 1)
+		}
 		c.Count("non_channel_messages_sent", int64(nonCh))
 		c.Count("realtime_sent", int64(rt))
 		c.Count("syscommon_sent", int64(sc))
@@ -301,14 +315,14 @@ func runC13(c *mon.Ctx) {
 		c.Count("read_back", 1)
 	}
 
-	c.Each("track-recordings", c.N(10_000, 100_000), func(i int64, r *mon.Rand) {
+	c.Each("track-recordings", c.N(10_000, 1_500_000), func(i int64, r *mon.Rand) {
 		record(r, fmt.Sprintf("track-%d", i), 0)
 		if i < 1 {
 			c.Sample("recording", "Track.RecordFrom on a testdrv loopback; see rule")
 		}
 	})
 	// SMF.RecordFrom / smf.RecordTo: their stop functions sleep one second each
-	c.Each("file-recordings", c.N(32, 160), func(i int64, r *mon.Rand) {
+	c.Each("file-recordings", c.N(32, 480), func(i int64, r *mon.Rand) {
 		record(r, fmt.Sprintf("file-%d", i), 1+int(i%2))
 	})
 }
